@@ -126,6 +126,19 @@ def tie(ck, pool, cases):
                                              "impl_text": impl, "impl_err": (a.get("err") or {}).get("message")})
             wf, chs, guard, sfree = parts[2:6]
             ck.hist("tie:guard-treeOk=" + guard)
+            if len(parts) > 10 and impl is not None:
+                # C05_sass_free on grass's own text: a Sass character that no leaf of the tree contains must not appear
+                for ch, fl in zip("&$%#", parts[10]):
+                    if fl == "1":
+                        ck.hist("sass-free-alphabet:guard-holds:" + ch)
+                        if ch in impl:
+                            ck.cov["model_disagreements"] += 1
+                            if len(ck.disagreements) < 3:
+                                ck.disagreements.append({"source": c["src"], "what": f"`{ch}` is in no leaf of the tree but in grass's output",
+                                                         "impl_text": impl})
+            if st is None and cs and len(parts) > 9:
+                c["readable_expanded"] = parts[6] == "1" and parts[8] == "0"
+                ck.hist(f"tie:treeReadable={parts[6]} treeG={parts[7]} embedOk={parts[9]}")
             # P̂ on the model's own output: charsetOk always; wellFormed whenever the guard of
             # C05_blocks_balanced holds; sassFree on the clean (CSS-token) trees
             if chs != "1" or (guard == "1" and wf != "1") or (c.get("clean") and sfree != "1"):
@@ -134,6 +147,53 @@ def tie(ck, pool, cases):
         if len(ck.cov["samples"]) < 3 and nontrivial:
             a = c["out"].get((None, True)) or {}
             ck.sample({"kind": "tie", "source": c["src"], "grass_expanded": a.get("css")})
+    reader_fixed_point(ck, pool, cases)
+
+
+def reader_fixed_point(ck, pool, cases):
+    """The Lean reader `readTree` (C05_read_roundtrip / C05_fixed_point_model) as judge of grass's fixed point:
+    for trees with `treeReadable`, grass's expanded output is fed back to grass as plain CSS and both texts are
+    read by the driver — the same tree must come back; the reader must also be blind to the charset header
+    (output with charset on / off reads the same)."""
+    todo = []
+    for c in cases:
+        if not c.get("readable_expanded") or not c.get("clean"):
+            continue        # (junk unquoted atoms are not CSS: grass need not re-read them)
+        a, b = c["out"].get((None, True)), c["out"].get((None, False))
+        if not a or a.get("status") != "ok" or not b or b.get("status") != "ok":
+            continue
+        todo.append((c, a["css"], b["css"]))
+    if not todo:
+        return
+    sec = cc.run_jobs(pool, [compile_job(css, style=None, syntax="css", charset=True) for _, css, _ in todo])
+    reqs = []
+    for (c, css, css0), a2 in zip(todo, sec):
+        reqs += ["ser readtree " + hexs(css), "ser readtree " + hexs(css0), "ser readtree " + hexs(a2.get("css") or "")]
+    outs = driver(reqs)
+    for i, ((c, css, css0), a2) in enumerate(zip(todo, sec)):
+        r1, r0, r2 = outs[3 * i:3 * i + 3]
+        ck.count(("reader-fixed-point", c["src"]), True)
+        bad = None
+        if r1 != r0 or not r1.startswith("ok"):
+            bad = {"what": "readTree depends on the charset header", "with_header": r1[:300], "without": r0[:300]}
+        elif "hash-brace" in c.get("ftags", ()) or cc_has_hash_brace(css):
+            ck.hist("reader-fixed-point:skipped(C05-F1 input)")
+        elif "0a" in "".join(x for x in r1.split("C")[1:]):
+            ck.hist("reader-fixed-point:skipped(multi-line loud comment is re-indented)")
+        elif a2.get("status") != "ok" or r2 != r1:
+            bad = {"what": "grass's expanded output, recompiled as CSS, reads as a different tree (Lean reader)",
+                   "first": r1[:400], "second": r2[:400], "second_status": a2.get("status"), "output": css}
+        else:
+            ck.hist("reader-fixed-point:same-tree")
+        if bad:
+            ck.cov["model_disagreements"] += 1
+            if len(ck.disagreements) < 3:
+                bad["source"] = c["src"]
+                ck.disagreements.append(bad)
+
+
+def cc_has_hash_brace(css):
+    return _hash_brace_in_string(css)
 
 
 # ---------------------------------------------------------------------------------------------
@@ -403,6 +463,9 @@ def run(tier, seed):
         "at-rule) printed as SCSS and compiled in {expanded,compressed} x {charset on,off}; grass text compared byte for "
         "byte with the model. A case is distinct by (tree, style, charset) and non-trivial when the tree reaches a "
         "branch beyond 'one visible rule with declarations' (see histogram tree:*). "
+        "READER: for trees with the guard treeReadable (flag computed by the driver; histogram tie:treeReadable=…), grass's "
+        "expanded output is recompiled by grass as CSS and both texts are read by the Lean reader readTree "
+        "(C05_read_roundtrip / C05_fixed_point_model): same tree required, with and without charset header. "
         "DIRECT: generated strings written as literals, the printed token judged by the Lean driver (quotedOk, unescape = "
         "intended string) in both styles; the same sources + generated SassScript programs + golden-corpus test inputs (no random()/unique-id(); "
         f"{len(NOT_CSS_REPRESENTABLE)} named cases whose input injects non-CSS text are excluded, see "
